@@ -13,7 +13,8 @@ ASSUMPTIONS = ["specification arithmetic: every specification of up to 3 parts o
                "stderr messages have no effect on the result",
                "distribution: transform.run with --split in-process on the in-memory file system; corpus of s one- and "
                "two-token sentences in export format; the unsplit run of the same command is the reference"]
-OUTSIDE = ["numerals / sizes above the bound (an unbounded integer-arithmetic lemma is not claimed in this round)",
+OUTSIDE = ["CrossHair conditions: numerals / sizes above the stated bounds (the Engine B lemma covers all integers for "
+           "specifications of up to 3 parts; if the source contains floating point it falls back to numerals <= 100, sizes <= 2^20)",
            "corpora of more than 6 sentences"]
 KINDS = ["#", "%", "rest", "", "x#", "-#"]      # kinds of parts; the last three are malformed
 
@@ -181,6 +182,11 @@ def distribute(s, df, sp, flt, **kw):
     if cat != whole:
         return "parts concatenated differ from the unsplit output: %r vs %r" % (cat, whole)
     return ""
+
+
+def lemmas(tier):
+    """Engine B (pysym): parse_split_specification against the documented rule for unbounded numerals and sizes"""
+    return [{"module": "harness.c17_lemma", "replay": "harness.c17_lemma:replay", "timeout": 2400}]
 
 
 def conds(tier):
